@@ -674,10 +674,18 @@ func exploreEsm(lg *sim.Log, seed int64, depth, maxNodes int, withStable bool) {
 		{A: "V1Liquidate", U: "u2", V: 1}, {A: "Liquidate", U: "u1", V: 2}, {A: "V1Liquidate", U: "u2", V: 3},
 		// V1 auction 1 stays below the principal (close-out re-opens the vault), V1 auction 2 collects more than the principal but less than the target (close-out hands the rest to the esm account)
 		{A: "V1Bid", U: "u2", V: 1, D: "ucm", X: 10}, {A: "Bid", U: "u1", V: 1, D: "ust", X: 5}, {A: "V1Bid", U: "u2", V: 2, D: "uat", X: 13},
+		// second variant only: both liquidated owners open a NEW vault on the same product while their auctions run (the close-outs then merge into an open vault)
+		{A: "Create", U: "u1", P: p1, X: 31, Y: 10, On: true}, {A: "Create", U: "u2", P: p1, X: 32, Y: 11, On: true},
 		{A: "EsmDeposit", U: "u1", X: 50},
 	} {
 		if a.A == "SCreate" && !withStable {
 			continue
+		}
+		if a.A == "Create" && a.On {
+			if withStable {
+				continue
+			}
+			a.On = false
 		}
 		rs := w0.Do(a)
 		par, _ = w0.Record(lg, par, run, root, a, rs)
